@@ -36,7 +36,7 @@ CLAIM = {
              "cli/src and fails the check when a site is new, changed, or lost its recorded sort."),
     "note": ("process-level determinism is observed, not proved; the only normalisation is env_logger's wall-clock timestamp in "
              "front of a log line on stderr; `--now` is always passed (without it `balance -X` reads the wall clock); the "
-             "iteration-site probe is a regex heuristic; known open nondeterminism: F14 (rewrite-rule field order) and F23 "
+             "iteration-site probe is a regex heuristic; known open nondeterminism: F14 (rewrite-rule field order) and F32 "
              "(which of two configuration errors is reported) in `okane import`."),
     "design_ref": "DESIGN.md section 6, C13; section 3.1 (hash maps and iteration order)",
 }
@@ -139,10 +139,10 @@ class Ledger:
                     body.insert(1, "    alias %s_ALIAS" % c)
                     self.features.add("commodity-alias")
                 out.append("\n".join(body))
-        for a in r.sample(self.accounts, min(len(self.accounts), r.randint(0, 4))):
+        for j, a in enumerate(r.sample(self.accounts, min(len(self.accounts), r.randint(0, 4)))):
             body = ["account %s" % a]
             if r.random() < 0.5:
-                body.append("    alias %s" % (a.split(":")[-1] + " alias"))
+                body.append("    alias %s" % (a.split(":")[-1] + " alias%d" % j))
                 self.features.add("account-alias")
             if r.random() < 0.3:
                 body.append("    note some note")
@@ -358,7 +358,7 @@ def price_db(rng, led, target):
 
 def gen_ledger_case(rng, tier, idx):
     led = Ledger(rng, tier)
-    head = led.build(fail_ratio=0.35)
+    head = led.build(fail_ratio=0.3)
     files = {}
     entries = head + led.entries
     if rng.random() < 0.2 and len(led.entries) > 4:
@@ -403,7 +403,7 @@ def gen_ledger_case(rng, tier, idx):
     add("primitive", "eval", "--date", d, "-f", "main.ledger", expr)
     add("primitive", "eval", "--date", d, "-X", targets[0], "--price-db", "prices.db", "-f", "main.ledger", expr)
     add("primitive", "eval", "--date", now, "-X", targets[-1], "-f", "main.ledger", "1 " + cs[0])
-    add("primitive", "eval", "--date", d, "-f", "main.ledger", "10 / (%s)" % expr)
+    add("primitive", "eval", "--date", d, "-f", "main.ledger", "10 / (%s)" % (expr if rng.random() < 0.5 else "4 " + cs[0]))
     add("primitive", "eval", "--date", d, "-f", "main.ledger", "(%s) * 3 - 1 %s" % (expr, cs[0]))
     nontrivial = any(f.startswith(("omitted-multi", "err-", "price-ties", "missing-rates", "implied")) for f in led.features)
     return {"id": "L%05d" % idx, "kind": "ledger", "files": files, "cmds": cmds, "features": sorted(led.features),
@@ -479,7 +479,7 @@ def element_class(kind, el):
         if bad_field or bad_regex:
             faults += 1
     if faults >= 2:
-        cls.add("F23")
+        cls.add("F32")
     return cls
 
 
@@ -491,7 +491,7 @@ def config_class(kind, rules, bad_templates=0):
         for el in els:
             cls |= element_class(kind, el)
     if bad_templates >= 2:
-        cls.add("F23")
+        cls.add("F32")
     return cls
 
 
@@ -521,7 +521,7 @@ def gen_csv_case(rng, idx, known):
     bad_templates = 0
     if r.random() < 0.4:
         fields[1] = ("payee", {"template": "{category} - {note}"})
-    if known == "F23-template":
+    if known == "F32-template":
         fields[1] = ("payee", {"template": "{nosuch}"})
         fields[6] = ("note", {"template": "{unclosed"})
         bad_templates = 2
@@ -549,7 +549,7 @@ def gen_csv_case(rng, idx, known):
         m = rule["matcher"]
         r.shuffle(m)
         rules.append(rule)
-    if known == "F23-matcher":
+    if known == "F32-matcher":
         rules.append({"matcher": [("creditor_name", "foo"), ("payee", "(")], "account": "Expenses:X"})
     cfg = ["path: in.csv", "encoding: UTF-8", "account: Assets:Bank", "account_type: %s" % r.choice(["asset", "liability"]),
            "commodity: USD", "format:", '  date: "%Y-%m-%d"', "  fields:"]
@@ -655,8 +655,8 @@ def gen_camt_case(rng, idx, known):
         else:
             rules.append({"matcher": [("creditor_name", "(?P<payee>.*)"), ("debtor_name", "(?P<payee>.*)")],
                           "account": "Expenses:F14"})
-    if known == "F23":
-        rules.append({"matcher": [("creditor_name", "(a"), ("debtor_name", "b)")], "account": "Expenses:F23"})
+    if known == "F32":
+        rules.append({"matcher": [("creditor_name", "(a"), ("debtor_name", "b)")], "account": "Expenses:F32"})
     cfg = ["path: in.xml", "encoding: UTF-8", "account: Assets:Okane Bank", "account_type: asset", "operator: Okane Bank (fee)",
            "commodity: CHF", "format:", "  commodity:", "    CHF:", "      precision: 2", "    EUR:", "      precision: 2", "rewrite:"]
     cfg += yaml_rules(rules)
@@ -851,7 +851,7 @@ def generate(chk, rng, n_ledger, n_import, known_ratio=0.0, start=0):
         known = None
         kind = rng.choice(["csv", "csv", "camt", "camt", "viseca"])
         if rng.random() < known_ratio:
-            known = {"csv": rng.choice(["F23-template", "F23-matcher"]), "camt": rng.choice(["F14", "F14", "F23"]), "viseca": "F14"}[kind]
+            known = {"csv": rng.choice(["F32-template", "F32-matcher"]), "camt": rng.choice(["F14", "F14", "F32"]), "viseca": "F14"}[kind]
         g = {"csv": gen_csv_case, "camt": gen_camt_case, "viseca": gen_viseca_case}[kind]
         cases.append(g(rng, start + i, known))
     return cases
@@ -1031,7 +1031,7 @@ def run(chk):
     jobs = process_results(chk, root, res, known_seen, shrink=False)
 
     # 2. generated stream
-    n_led, n_imp = (260, 160) if tier == "quick" else (1500, 900)
+    n_led, n_imp = (110, 90) if tier == "quick" else (1500, 900)
     cases = generate(chk, chk.rng, n_led, n_imp)
     res = run_cases(chk, root, cases, n)
     chk.streams["process-level"] = len(res)
@@ -1048,7 +1048,7 @@ def run(chk):
                     "identical": r0[0].get("same") == "1" if r0 else None, "status": r0[0].get("st") if r0 else None,
                     "stdout_head": dec(r0[0].get("out", "~"))[:200] if r0 else None})
 
-    # 3. population of the known-finding classes (F14 / F23): attributed by the class predicate, never to the main stream
+    # 3. population of the known-finding classes (F14 / F32): attributed by the class predicate, never to the main stream
     kcases = generate(chk, chk.rng, 0, 24 if tier == "quick" else 120, known_ratio=1.0, start=900000)
     kres = run_cases(chk, root, kcases, max(n, 12))
     chk.streams["known-class-population"] = len(kres)
@@ -1072,6 +1072,7 @@ def run(chk):
         big = generate(chk, chk.rng, n_led * 10 if want_ledger else 0, n_imp * 10 if want_import else 0, start=100000)
         bres = run_cases(chk, root, big, max(n, 12))
         chk.streams["aimed-10x"] = len(bres)
+        chk.count("site-probe:tolerated-edits", len(diff.get("tolerated", [])))
         process_results(chk, root, bres, known_seen)
         if len(chk.violations) == before:
             chk.violation(
